@@ -23,6 +23,7 @@ def admissible_base(R, v, ty):
         spec, p, _ = G.rand_wire_pkt(R, flags=ty)
         tries += 1
     spec["v"] = v
+    spec.pop("link", None)                           # the base's framing is chosen by the case's "ether" field
     if v == 6:
         spec["ipopts"] = ""
     extra = R.choice([0, 0, 0, 0x08, 0x40, 0x80, 0xC0, 0x100, 0x48])
@@ -60,6 +61,7 @@ def generate(R, tier):
         wspec, p, _ = G.rand_wire_pkt(R, flags=ty)
         wspec["mf"] = False
         wspec["frag"] = 0
+        wspec.pop("link", None)
         if ty == 0x12 and not wspec.get("ack"):
             pass
         p["win"] = wspec["win"] = G.aim_window(R, p)
